@@ -41,7 +41,7 @@ package xixi_kv
 //@ func (*xixi_kv.DB).setActiveFile
 //@   io_effect
 //@   props C01 C13 C17
-//@   requires [locked] db.mu == nil || db.mu.heldW
+//@   requires [locked] db.mu == nil || db.mu.heldW || unshared(db)
 //@   requires [id-room] db.activeFile == nil || db.activeFile.ID < 4294967295
 //@   ensures [ok]   result == nil ==> db.activeFile != nil && fresh(db.activeFile) && INV_df(db.activeFile) && !db.activeFile.closed && db.activeFile.kind == datafile.DataFileSuffix && len(db.activeFile.bufferedWrites) == 0 && arr(db.activeFile.bufferedWrites) == 0 && db.activeFile.ReadWriter.durable == db.activeFile.ReadWriter.size && db.activeFile.ReadWriter.writes == 0 && fresh(db.activeFile.ReadWriter) && fresh(db.activeFile.headerBuf) && owned(db.activeFile.headerBuf)
 //@   ensures [id]   result == nil ==> db.activeFile.ID == (old(db.activeFile) == nil ? 0 : old(db.activeFile.ID) + 1)
@@ -320,7 +320,7 @@ package xixi_kv
 //@ spec func markerJ(c int) int
 //@ axiom [merged-content-exists] forall id :: {mergedC(id)} mergedC(id) != 0
 //@ const hintC = 777777
-//@ axiom [merge-dir-distinct] forall d :: {mergeDirOf(d)} mergeDirOf(d) != d && fnameSuf(mergeDirOf(d)) == 0
+//@ axiom [merge-dir-distinct] forall d :: {mergeDirOf(d)} mergeDirOf(d) != d && fnameSuf(mergeDirOf(d)) == 0 && fnameDir(mergeDirOf(d)) != mergeDirOf(d)
 
 // the marker's view of a finished merge whose adoption may have been interrupted any number of times:
 // each output file is still in the merge directory, or already sits in the data directory; same for the hint file
@@ -386,6 +386,7 @@ package xixi_kv
 //@   requires [db] db.olderFiles != nil
 //@   ensures [foreign-errors] result1 == ErrDataDirectoryCorrupted || !engineErr(result1)
 //@   ensures [files] result1 == nil ==> (len(result0) == 0 ==> db.activeFile == old(db.activeFile)) && (len(result0) > 0 ==> db.activeFile != nil && fresh(db.activeFile) && INV_df(db.activeFile) && !db.activeFile.closed && db.activeFile.kind == datafile.DataFileSuffix && len(db.activeFile.bufferedWrites) == 0 && owned(db.activeFile.headerBuf) && fresh(db.activeFile.headerBuf)) && olderIds(db) && olderInv(db) && olderFlushed(db)
+//@   ensures [opened-files-are-new] (forall id :: {db.olderFiles[id]} has(db.olderFiles, id) ==> db.olderFiles[id] != nil && fresh(db.olderFiles[id]) && db.olderFiles[id].ReadWriter != nil && fresh(db.olderFiles[id].ReadWriter)) && (db.activeFile == old(db.activeFile) || (db.activeFile != nil && fresh(db.activeFile) && db.activeFile.ReadWriter != nil && fresh(db.activeFile.ReadWriter)))
 //@   ensures [ids] result1 == nil ==> (forall i :: {result0[i]} 0 <= i && i < len(result0) ==> result0[i] == db.activeFile.ID || has(db.olderFiles, result0[i]))
 //@   ensures [merge-dir-untouched] forall p :: {fs[p]} fnameDir(p) != db.options.DirPath ==> fs[p] == old(fs)[p]
 //@   modifies db.activeFile, db.olderFiles[*]
@@ -508,6 +509,7 @@ package xixi_kv
 //@   at (*datafile.DataFile).WriteMergeFinRecord assert [marker-last] arg1 == nonMergeFileId && arg2 == mergeDB.activeFile.ID + 1 && arg2 <= arg1 && arg1 > 0
 //@   at (*datafile.DataFile).WriteMergeFinRecord assert [all-closed-before-marker] hintFile.closed && hintFile.ReadWriter.closed && hintFile.ReadWriter.durable == hintFile.ReadWriter.size && mergeDB.activeFile.closed && mergeDB.activeFile.ReadWriter.closed && mergeDB.activeFile.ReadWriter.durable == mergeDB.activeFile.ReadWriter.size && (forall id :: {mergeDB.olderFiles[id]} has(mergeDB.olderFiles, id) ==> mergeDB.olderFiles[id].closed && mergeDB.olderFiles[id].ReadWriter.closed && mergeDB.olderFiles[id].ReadWriter.durable == mergeDB.olderFiles[id].ReadWriter.size)
 //@   at os.RemoveAll assert [only-the-merge-directory] arg0 == mergeDirOf(db.options.DirPath)
+//@   at (*xixi_kv.DB).setActiveFile assert [starts-from-an-empty-merge-directory] arg0.options.DirPath == mergeDirOf(db.options.DirPath) && (forall p :: {fs[p]} fnameDir(p) == mergeDirOf(db.options.DirPath) ==> fs[p] == 0)
 //@   modifies db.mu.heldW, db.mu.sections, db.isMerging, db.hintPos, db.hintPos[*], db.activeFile, db.olderFiles[*], db.bytesWrite, db.activeFile.ReadWriter.durable
 //@   loop 1
 //@     invariant [locked] db.mu.heldW && !db.mu.heldR && db.isMerging && INV_db(db) && db.mu == old(db.mu) && db.index == old(db.index) && nonMergeFileId == db.activeFile.ID && nonMergeFileId > 0
